@@ -4,7 +4,7 @@ import json
 import os
 import random
 
-from ..core import Result, out_bytes, cli, scrub_env
+from ..core import crashed, Result, out_bytes, cli, scrub_env
 from .. import gen, ser
 from ..val import clone
 from . import c01, c06, c07, c10, c11, c12, c02
@@ -254,7 +254,7 @@ def check_case(ctx, case):
                 r = cli([ctx.bin('bkl'), '-f', fmt, name + '.json'], cwd=d)
                 res.execs += 1
                 ctx.cleanup_case(d)
-                if r.rc not in (0, 1):
+                if crashed(r.rc, r.err):
                     return res.violate('crash', 'bkl binary died rc=%s' % r.rc, prog=prog)
                 events.append(('fresh-process', m, 'ok' if r.rc == 0 else 'fail', hashlib.sha256(r.out).hexdigest() if r.rc == 0 else None))
             res.ev('fresh_process_evaluations', 3)
